@@ -56,7 +56,7 @@ CLAIMED = {
    ref="6 C10"),
  "C13": dict(
    text="Partial: PackXZ/UnpackXZ bijection on 0..15^2 with refusal outside (all int pairs); Section.SetBlock changes BlockCount by exactly [new non-air]-[old non-air] from a state reached by two arbitrary SetBlocks, with block.IsAir modelled exactly from the current registry (bounds + set of air ids), which with C12's array semantics gives the counter invariant by induction; ChunkToSave(ChunkFromSave(c)) keeps each of the six height maps (arbitrary raw longs) under its own name and the status, for chunks without sections; network form of a one-section chunk with 0..1 (quick) / 0..2 symbolic SetBlocks at chosen positions, an optional biome change, a symbolic height-map value and 0..1 block entity: read back into EmptyChunk(1) with identical blocks at the probed positions, block count, biomes, height maps, block entity, and exactly the bytes written consumed (through the reflect shim for the NBT height maps, Ary and NBTField).",
-   note="the block-state <-> (name, properties) bijection over the 26k registry states, biome names, 2..24 sections, light arrays and save-form block/biome palettes are outside (registry built by init from embedded gzip: not encodable); positions probed are fixed sets.",
+   note="the block-state <-> (name, properties) bijection over the 26k registry states is outside (registry built by init from an embedded gzip file: not encodable; the save round trip runs over four property-less states), as are blocks with properties, 3..24 sections and block entities in the save form; positions probed are fixed sets; maphash is modelled as FNV-1a of concrete names.",
    ref="6 C13"),
  "C14": dict(
    text="One WriteSector step from an arbitrary valid region state: the real Load on an in-memory file whose header has K<=2 (quick) / 3 live chunks at coordinates from a fixed set with symbolic (sector,count) constrained only by the Anvil validity predicate inside S=6/8 sectors, then a write of length in {1,4092,4093} (quick) / {1,4091..4093,8187..8189} to a live or fresh coordinate: file is a valid Anvil image by an independent parser, written chunk and all others read back, absent stay absent, a fresh Load sees the same offsets and timestamps; over-limit writes refused without any write; 2- and 3-step histories from CreateWriter with PadToFullSector and reload. Validity is assumed and re-established, so histories of any length within the bounds are covered by induction.",
@@ -80,6 +80,21 @@ CLAIMED = {
    ref="6 C18"),
 }
 
+# Extensions added after the first full round (sizes, shapes and histories the
+# seeded changes asked for); appended to the claim text of the property.
+EXTRA = {
+ "C01": " Also: int/long/byte arrays and lists of 257/129/1025/300 (thorough 1100/1030/4100) elements, every element arbitrary, decoded in order into typed and `any` targets and encoded to the reference bytes; the encoding of an interface-typed sequence is the reference whatever was encoded before it (no content-dependent per-type caching).",
+ "C02": " Also: four levels of anonymous embedding; maps with 2-3 entries whose values are carriers, slices, maps and structs with omitted fields; lists of such structs.",
+ "C04": " Also: byte/int/long arrays, lists and strings of 1025/300/140/1100/5000 (thorough up to 70000) elements through binary -> text -> binary with one arbitrary element at the 1024 boundary.",
+ "C06": " Also: String, ByteArray, Ary[VarInt], BitSet and Tuple{String,Int} at 127/128/300/16384/70000 (thorough also 129/16383/32767) elements with arbitrary contents, whole-value comparison and exact counts.",
+ "C07": " Also: frames of 300 KiB and just below the 2 MiB limit (Packet Length of 4 VarInt bytes) in every threshold class against the independent frame reader; packets received earlier and held in their own Packet stay intact across later Pack/UnPack calls with always-reused pooled buffers.",
+ "C08": " Also: arrays declaring 0..70001 and 2^22 elements over streams holding 1500/5000 (thorough 70000) elements: never a panic, success exactly when every declared element is present.",
+ "C10": " Also: single calls of 1025 and 4097 (thorough 2049) bytes in every buffer arrangement; the encrypted Conn over a transport delivering 1 or 3 bytes per Read.",
+ "C12": " Also: with-data constructors with palettes beyond the indirect range (257/300 block states, 9/16/17 biomes: the saved form indexes its own palette).",
+ "C13": " Also: the save form of a container in every representation class (1..300 distinct states, 1..64 biomes) read back by the with-data constructors position by position; ChunkToSave -> ChunkFromSave of a chunk with sections over a four-state mini registry whose ids and names coincide with the real registry (air, stone, granite, polished granite), with arbitrary blocks at chosen positions, a biome, light arrays absent / present-and-dark / present with arbitrary bytes, status and a height map.",
+ "C16": " Also: payloads of 4000 and 4082..4086 bytes (declared length up to the 4096 limit) written and read back; the server side starts from an arbitrary recorded request id.",
+}
+
 NA = {
  "C19": "goroutine-based state machines over sockets; the symbolic engine is single-threaded (DESIGN 7)",
  "C20": "quantifies over thread interleavings and data races; not encodable in a single-threaded symbolic executor and not replayable (DESIGN 7)",
@@ -101,7 +116,7 @@ def main():
             "evidence_file": f"/verif/evidence/{p}.json",
             "replay_cmd_template": "./check replay {path}",
             "engine": "symgo",
-            "level_claimed": {"category": "model_checking", "text": c["text"], "design_ref": c["ref"]},
+            "level_claimed": {"category": "model_checking", "text": c["text"] + EXTRA.get(p, ""), "design_ref": c["ref"]},
             "level_note": c["note"],
             "technique": TECH,
         })
